@@ -52,8 +52,28 @@ def main():
         body = m.group(1)
         if "debug_struct" not in body:
             raise TranslatorError("impl Debug for Passkey is not a debug_struct chain")
-        debug_fields = [(a, re.sub(r"\s+", "", b)) for a, b in re.findall(r"\.field\(\s*\"([^\"]*)\"\s*,\s*&?\s*([^)]*?)\s*\)", body)]
-        if ".finish_non_exhaustive" not in body and ".finish()" not in body:
+        # `let Self { key, counter: c, .. } = self;`: local names for fields of self
+        locals_ = {}
+        for dm in re.finditer(r"let\s+(?:Self|Passkey)\s*\{([^}]*)\}\s*=\s*\*?\s*&?\s*self\s*;", body):
+            for part in [x.strip() for x in dm.group(1).split(",") if x.strip() and x.strip() != ".."]:
+                part = re.sub(r"^(?:ref\s+)?(?:mut\s+)?", "", part)
+                if ":" in part:
+                    f, v = [y.strip() for y in part.split(":", 1)]
+                    v = re.sub(r"^(?:ref\s+)?(?:mut\s+)?", "", v)
+                else:
+                    f, v = part, part
+                locals_[v] = f
+
+        def norm(e):
+            e = re.sub(r"\s+", "", e).lstrip("&")
+            head = re.match(r"[A-Za-z_][A-Za-z0-9_]*", e)
+            if head and head.group(0) in locals_:
+                e = "self." + locals_[head.group(0)] + e[head.end():]
+            return e
+        debug_fields = [(a, norm(b)) for a, b in re.findall(r"\.field\(\s*\"([^\"]*)\"\s*,\s*([^)]*?)\s*\)", body)]
+        if body.count(".field(") != len(debug_fields):
+            raise TranslatorError("a .field(..) call of impl Debug for Passkey was not understood")
+        if ".finish_non_exhaustive" not in body and ".finish()" not in body and not re.search(r"\.finish\s*\(\s*\)", body):
             raise TranslatorError("debug_struct chain without finish")
     structs = {}
     for name in ["Passkey", "CredentialExtensions", "StoredHmacSecret"]:
